@@ -619,11 +619,154 @@ def rule_listo_applies_to_every_line(prog, fixture=False):
     return r
 
 
+# ---------------------------------------------------------------- R-C03-7
+def _base_and_offset(fn, e, depth=0):
+    """(declaration id, name, constant offset) when e is `v`, `v - c`, `v + c`, a cast of those, or a local
+    initialised once with such an expression; None otherwise."""
+    e = strip_all(e)
+    if e is None or depth > 4:
+        return None
+    if e.get("k") == "DeclRefExpr" and e.get("dk") in ("Var", "ParmVar"):
+        writes = [x for x in fn.walk() for d_, _ in flow.written_decls(x) if d_ == e["d"]]
+        if not writes:
+            for v in fn.walk():
+                if v.get("k") == "VarDecl" and v.get("d") == e["d"] and v.get("c"):
+                    inner = _base_and_offset(fn, v["c"][0], depth + 1)
+                    if inner:
+                        return inner
+        return (e["d"], e.get("n"), 0)
+    if e.get("k") == "BinaryOperator" and e.get("op") in ("-", "+"):
+        c = folded(e["c"][1])
+        b = _base_and_offset(fn, e["c"][0], depth + 1)
+        if c is not None and b:
+            return (b[0], b[1], b[2] + (c if e["op"] == "+" else -c))
+    return None
+
+
+def _terminator_verified(g, at, vd, buf):
+    """The facts at `at` imply buf[v-1] == 0x0D (v being the declaration vd)."""
+    def is_last(sub):
+        sub = strip_all(sub)
+        if sub is None or sub.get("k") != "ArraySubscriptExpr":
+            return False
+        if not flow.same_expr(sub["c"][0], buf):
+            return False
+        bo = None
+        idx = strip_all(sub["c"][1])
+        if idx is not None and idx.get("k") == "BinaryOperator" and idx.get("op") == "-" and folded(idx["c"][1]) == 1:
+            bo = strip_all(idx["c"][0])
+        return bo is not None and bo.get("d") == vd
+    for l, rel, rr in (g.cmps(at) or []):
+        if rel == "==" and ((folded(rr) == 13 and is_last(l)) or (folded(l) == 13 and is_last(rr))):
+            return True
+    fs = g.at(at)
+    if fs is None:
+        return False
+    nonzero = any(truth and (strip_all(a) or {}).get("d") == vd for a, truth in (g.truths(at) or [])) or \
+        any((strip_all(l) or {}).get("d") == vd and ((rel in (">", "!=") and folded(rr) == 0) or (rel == ">=" and folded(rr) == 1))
+            for l, rel, rr in (g.cmps(at) or []))
+    for k in fs:
+        if k[0] != "NAND" or len(k) != 3:
+            continue
+        parts = [g.rep.get(x) for x in k[1:]]
+        if any(p_ is None for p_ in parts):
+            continue
+        term = pos = False
+        for f in parts:
+            if f[0] == "C" and f[2] == "!=" and ((folded(f[1]) == 13 and is_last(f[3])) or (folded(f[3]) == 13 and is_last(f[1]))):
+                term = True
+            elif f[0] == "C" and ((f[2] == "<" and folded(f[1]) == 0 and (strip_all(f[3]) or {}).get("d") == vd) or
+                                  (f[2] in (">", "!=") and folded(f[3]) == 0 and (strip_all(f[1]) or {}).get("d") == vd)):
+                pos = True
+            elif f[0] == "T" and (strip_all(f[1]) or {}).get("d") == vd:
+                pos = True
+        if term and pos and nonzero:
+            return True
+    return False
+
+
+def rule_whole_body_listed(prog, fixture=False):
+    from . import c09
+    r = RuleResult("R-C03-7", "the line decoder is given the whole record body that was read: its buffer argument is "
+                   "the fread buffer and its length argument is the fread count, less one only where the last byte "
+                   "was tested to be the 0x0D terminator (so no byte of a line - in particular none inside a quoted "
+                   "string - is dropped, and none is invented)", floor=0 if fixture else 2)
+    for fn, call, var, want, buf in c09._fread_sites(prog):
+        if want is None:
+            continue
+        base = _base_and_offset(fn, want)
+        if base is None or base[2] != 0:
+            r.undecided.append("%s: the fread count `%s` is not a plain variable" % (fn.loc(call), show(want)))
+            continue
+        vd, vn = base[0], base[1]
+        order = {id(n): i for i, n in enumerate(fn.walk())}
+        decs = [n for n in fn.walk() if n.get("k") == "CallExpr" and notpl(n.get("q") or "") in c09.DECODERS
+                and order[id(n)] > order[id(call)]]
+        # only the decoder calls that follow this fread before the next one
+        later = [order[id(c2)] for _f, c2, _v, _w, _b in c09._fread_sites(prog) if _f is fn and order[id(c2)] > order[id(call)]]
+        lim = min(later) if later else None
+        g = None
+        for dc in decs:
+            if lim is not None and order[id(dc)] > lim:
+                continue
+            g = g or flow.Guards(fn)
+            args = call_args(dc)
+            key = "%s::%s::decoder-call@%d" % (fn.relfile(), fn.qn, len(r.instances) + 1)
+            bufarg = [a for a in args if flow.same_expr(a, buf)]
+            lenarg = None
+            for a in args:
+                bo = _base_and_offset(fn, a)
+                if bo and bo[0] == vd and (strip_all(a) or {}).get("w"):
+                    lenarg = (a, bo)
+            if not bufarg:
+                r.add(key, fn.loc(dc), False, "the line decoder is not given the buffer `%s` that fread filled (but an "
+                      "offset or another buffer): bytes of the line are skipped or stale bytes are listed" % show(buf))
+                continue
+            if lenarg is None:
+                r.undecided.append("%s: cannot relate the length given to the line decoder to the fread count `%s`" % (fn.loc(dc), vn))
+                continue
+            off = lenarg[1][2]
+            verified = off < 0 and _terminator_verified(g, dc, vd, buf)
+            problem = None
+            for n in fn.walk():
+                if not (order[id(call)] < order[id(n)] < order[id(dc)]):
+                    continue
+                if not any(d_ == vd for d_, _ in flow.written_decls(n)):
+                    continue
+                dec1 = (n.get("k") == "UnaryOperator" and n.get("op") == "--") or \
+                       (n.get("k") == "CompoundAssignOperator" and n.get("op") == "-=" and folded(n["c"][1]) == 1)
+                if n.get("k") == "BinaryOperator" and n.get("op") == "=":
+                    bo = _base_and_offset(fn, n["c"][1])
+                    dec1 = bool(bo and bo[0] == vd and bo[2] == -1)
+                if not dec1:
+                    problem = "%s: `%s` is recomputed (%s) between the fread and the line decoder: the decoder no longer " \
+                              "gets the number of bytes read" % (fn.loc(n), vn, show(n)[:50])
+                    break
+                off -= 1
+                if _terminator_verified(g, n, vd, buf):
+                    verified = True
+            if problem is None and off not in (0, -1):
+                problem = "the line decoder is given %d bytes fewer than were read" % -off if off < 0 else \
+                          "the line decoder is given %d bytes more than were read" % off
+            if problem is None and off == -1 and not verified:
+                problem = "the last byte of the record is dropped without having been tested to be the 0x0D terminator"
+            r.add(key, fn.loc(dc), problem is None,
+                  "length = bytes read%s" % (" - 1 (terminator verified)" if off else "") if problem is None else problem)
+    return r
+
+
 def run(ctx):
     prog = ctx.prog("basic", "N")
     root = ctx.root or facts.REPO
     return [rule_line_number(prog, root), rule_input_independence(prog), rule_indentation(prog), rule_count_extent(prog),
-            rule_listo_applies_to_every_line(prog)]
+            rule_listo_applies_to_every_line(prog), rule_whole_body_listed(prog), _shared_cursor_rule(prog)]
+
+
+def _shared_cursor_rule(prog):
+    from . import c08
+    r = c08.rule_cursor_discipline(prog)
+    r.rule = "R-C03-8"
+    return r
 
 
 def _fx_line(prog, fixture=True):
@@ -635,4 +778,5 @@ SELFTESTS = [
     (_fx_line, ["c03_bad.c"], ["c03_good.c"], "print_target_line_number"),
     (rule_input_independence, ["c03_bad.c"], ["c03_good.c"], "ftell"),
     (rule_count_extent, ["c03_count_bad.c"], ["c03_count_good.c"], "count::extent"),
+    (rule_whole_body_listed, ["c03_body_bad.c"], ["c03_body_good.c"], "decoder-call"),
 ]
